@@ -63,15 +63,21 @@ CLAIMS = {
   technique="Lean 4 proof of the converter's well-formedness invariants and exit logic + byte-exact differential against the real binary (partial)"),
  "C12": dict(
   category="other",
-  text=("PARTIAL by nature. Proved in Lean 4 on the model (for every server behaviour): at most 3·(retries+1)+1 blocking steps of a Valve query can run "
-        "into their timeout (timed-out receives, failed sends, failed socket creation) — a counting logic over the transport log; against a silent server a "
-        "request fails with the receive-class error after exactly retries+1 attempts of one send + one timed-out receive; a received datagram is delivered "
-        "unmodified up to the requested size and a stream whole; sent bytes are handed over unmodified; default timeouts are finite. MEASURED on real "
-        "loopback sockets (IPv4 and IPv6), not proved: that the OS honours the timeouts — wall clock of queries against servers that fall silent at every "
-        "point of the exchange vs (model's count of timed-out steps) x timeout + slack; byte-exact round trips for payloads 0..65507 (UDP) / 100 000 (TCP); "
-        "refused connections. The runtime behaviour a model cannot exhibit (kernel timers, scheduling) is exactly the measured part."),
-  note=TB + "OS socket timeouts, scheduling and the kernel's IPv4/IPv6 stacks are outside any model; TCP and HTTP (ureq agent) paths are added with the Minecraft / Eco families.",
-  technique="Lean 4 proof of the blocking-step bound and transport fidelity on the model + wall-clock measurement on real loopback sockets (partial)"),
+  text=("PARTIAL by nature. Proved in Lean 4 on the model, for every server behaviour and every modelled family (Props/C12.lean, C12_<family>.lean): "
+        "the number of blocking steps that can run into their timeout (timed-out receives, failed sends, failed socket creation) is bounded by an "
+        "expression in the retry count only — r+1 for Quake, GameSpy 1/2/3, JC2M, FFOW, Mindustry, Minecraft Java / Bedrock / each legacy variant; 3r+2 "
+        "for Valve, The Ship and Unreal 2 (a listening loop for further datagrams costs one timed-out step, not one per datagram); 3(r+1) for the "
+        "legacy trio, 5(r+1) for Minecraft auto-detection over its five sockets; 1 for Savage 2 — by a counting logic over the transport log (Block); "
+        "against a silent server each query fails with the receive-class error (auto-detection: AutoQuery) after exactly the stated number of sends, "
+        "timeouts and sockets (C12_<family>_silent_server; bounds attained); a received datagram is delivered unmodified up to the requested size and a "
+        "stream whole; sent bytes are handed over unmodified; default timeouts are finite. MEASURED on real loopback sockets (IPv4 and IPv6), not "
+        "proved: that the OS honours the timeouts — wall clock of Valve and GameSpy 2 queries against servers that fall silent at every point of the "
+        "exchange, of the Minecraft Java query against a TCP peer that never writes, and of a TCP read against a peer that writes part of a reply and "
+        "then stalls with the connection open, each vs (model's count of timed-out steps) x timeout + slack; byte-exact round trips for payloads "
+        "0..65507 (UDP) / 100 000 (TCP); refused connections. The runtime behaviour a model cannot exhibit (kernel timers, scheduling) is exactly the "
+        "measured part."),
+  note=TB + "OS socket timeouts, scheduling and the kernel's IPv4/IPv6 stacks are outside any model; the HTTP client (ureq agent: Eco) is measured by the Eco family's loopback HTTP runs only for fidelity, its timeouts are not modelled.",
+  technique="Lean 4 proof of the blocking-step bounds per family and transport fidelity on the model + wall-clock measurement on real loopback sockets (partial)"),
  "C05": dict(
   category="proof",
   text=("Lean 4 theorems (family built by a sub-agent under the common brief, merged and re-checked here): for every well-formed Quake 1/2/3 status reply "
@@ -148,8 +154,10 @@ CLAIMS = {
  "C13": dict(
   category="proof",
   text=("Lean 4 theorems. Requests sent: for EVERY server behaviour the model of the Valve query sends at most 3·(retries+1) datagrams plus one per datagram "
-        "received (C13_valve_send_bound; per request r+1 plus received) and the Unreal 2 query at most 3·(retries+1) whatever it receives (C13_unreal2_send_bound) — "
-        "a counting logic over the transport log (Cost). Memory: the list of ALL allocation-size expressions of the library is regenerated from the source on every "
+        "received (C13_valve_send_bound; per request r+1 plus received), the Unreal 2 query at most 3·(retries+1) whatever it receives, and every other modelled "
+        "family at most units·(retries+1) [+ received where a request is only sent in answer to a reply] with units proved per family (1 for Quake, GameSpy 1/2/3, "
+        "JC2M, FFOW, Mindustry, Bedrock, each legacy variant; 3 for Java, the legacy trio, The Ship; 7 for auto-detection; Savage 2 sends once) — C13_<family>_send_bound / "
+        "_units / _attained, a counting logic over the transport log (Cost). Memory: the list of ALL allocation-size expressions of the library is regenerated from the source on every "
         "run by the translator (expression, defining lets/parameters, guards and constants hashed into a site id); C13_every_site_classified proves every generated "
         "site is in the hand-written classification (constant / fixed-width wire field / clamped / proportional to the bytes of the datagram it came from / drained "
         "behind a take-limit / caller-supplied constant / unreachable from a query), and C13_single_request_proportional / _datagram prove that a site of any class "
@@ -157,7 +165,7 @@ CLAIMS = {
         "the part a model cannot carry): a counting global allocator in the harness records peak live bytes and the largest single request of every query on "
         "SPEC-generated exchanges and mutations biased to extreme length / count / index fields and oversized datagrams, checked against 64 MiB / 16 MiB; the number "
         "of requests in the real trace is checked against units·(r+1) + received for every family."),
-  note=TB + "element sizes in the classification are estimates of the Rust layouts and collection growth policies (measured, not modelled); the translator finds allocation sites syntactically (with_capacity, vec![x; n], reserve, resize, read_to_end, take, repeat) — growth by push/insert is proportional to parsed input by construction and is covered by the measurement only; send-bound theorems exist for Valve and Unreal 2, the other families are covered by the trace oracle.",
+  note=TB + "element sizes in the classification are estimates of the Rust layouts and collection growth policies (measured, not modelled); the translator finds allocation sites syntactically (with_capacity, vec![x; n], reserve, resize, read_to_end, take, repeat) — growth by push/insert is proportional to parsed input by construction and is covered by the measurement only; the `send_units` numbers the trace oracle uses per family are exactly the ones the theorems prove.",
   technique="Lean 4 proof (send-count logic over the log; classification theorem over the generated allocation-site table) + counting-allocator measurement on the real code"),
  "C09": dict(
   category="proof",
@@ -203,12 +211,17 @@ CLAIMS = {
         "(A2S_INFO Source layout with all 32 extra-data flag subsets, either case of the type bytes and The Ship fields; "
         "obsolete GoldSrc layout with/without mod data; A2S_PLAYER with 0-255 players; A2S_RULES with 0-65535 distinct rules "
         "incl. the Risk of Rain 2 quirk) applied to the SPEC encoding returns exactly that state (unbounded strings and lists, by "
-        "induction / a compositional decoding logic). The model of the whole query (challenge loop, split reassembly, retry, "
-        "gather toggles, app-id check) is tied to the code by running both on SPEC-generated exchanges (0-3 challenge rounds, "
-        "single / Source split / GoldSrc split) and on structured mutations of them; the SPEC's expected response is compared "
-        "with the implementation's as the property oracle."),
-  note=TB + "SPEC encoders are hand-written from the Valve Server Queries page; bzip2-rs/crc32fast are parameters (oracle table from Python bz2 at check time); whole-query composition (transport + sections) is covered by the correspondence, the theorems are per section parser.",
-  technique="Lean 4 proof (compositional decode∘encode = id per section) + SPEC-driven model/implementation correspondence"),
+        "induction / a compositional decoding logic). WHOLE QUERY (Props/C02_whole.lean): for every such state, engine, gather setting, "
+        "retry count, and an exchange in which each of the three requests is answered after any number of challenge rounds with any "
+        "challenge bytes and the reply arrives as one datagram, a Source split of up to 255 fragments or a GoldSrc split of up to 15, cut "
+        "anywhere, fragments in ANY arrival order (composed with C08), the model of Valve.query returns exactly the SPEC's expected "
+        "response (C02_whole, C02_whole_any_order); the same for bzip2-compressed Source splits under the decoder law bunzip(compress p) = p "
+        "with the matching CRC-32 (C02_whole_compressed); every field of the per-game response equals the state's (C02_game_view_fields, "
+        "C02_whole_game_view). Tie + oracle: the SPEC generator prints the very script function the theorem is about (every generated case "
+        "is checked to lie in the theorem's domain), run on the real code together with real bzip2-compressed variants (Python bz2 / "
+        "zlib.crc32) and structured mutations; the SPEC's expected response is compared with the implementation's."),
+  note=TB + "SPEC encoders are hand-written from the Valve Server Queries page; bzip2-rs/crc32fast are parameters (law as hypothesis in the theorem; oracle table from Python bz2 at check time); hypotheses of the whole-query theorem: well-formed state and exchange, every datagram at most 6144 bytes (the client's receive buffer), decompressed reply at most 4 MiB.",
+  technique="Lean 4 proof (compositional decode∘encode = id per section; success logic over the socket queue for the whole query with challenge rounds and split replies) + SPEC-driven model/implementation correspondence"),
  "C17": dict(
   category="proof",
   text=("Lean 4 theorems over a model of buffer.rs and the Minecraft VarInt/string codecs: no operation history crashes or "
